@@ -10,19 +10,23 @@ from TotalDepth.common import LogPass, Slice
 
 VALS = [0.0, -1.0, 12345678.5, 0.0004, -999.25, 2.71875, -0.06, 1e-9]
 NAMES = [('DEPT', '.1IN'), ('GR', 'gAPI'), ('CNT', ''), ('WAVE', 'OHM.M'), ('SPEC', 'cps')]        # units with dots are ordinary (LIS depth unit, resistivity)
+# numeric channels that merely share the name of the LAS date / time curves (those are TIME.HHMMSS and DATE.D), also as the index channel
+NAMESETS = [NAMES,
+            [('DEPT', '.1IN'), ('TIME', 'S'), ('DATE', ''), ('WAVE', 'OHM.M'), ('SPEC', 'cps')],
+            [('TIME', 'MS'), ('GR', 'gAPI'), ('CNT', 'H'), ('WAVE', 'OHM.M'), ('SPEC', 'cps')]]
 IVALS = [[5, 6, 6, 6], [-5, -6, -6, -6], [1, 2, 3, 4], [7, 7, 7, 8], [-1, 0, 0, 2]]
 UVALS = [[250, 251, 251, 251], [0, 0, 1, 1], [1, 2, 3, 4], [7, 7, 7, 8], [9, 200, 200, 202]]
 HEAD = '~Version Information Section\nVERS. 2.0 : CWLS\nWRAP. NO : One line per depth step\n~Well Information Section\nNULL. -999.25 : NULL\n'
 
 
-def _frame_array(nframes, v0, v1, only=None):
+def _frame_array(nframes, v0, v1, only=None, names=NAMES):
     import numpy as np
     fa = LogPass.FrameArray('FA', 'description')
-    fa.append(LogPass.FrameChannel('DEPT', 'Depth', '.1IN', (1,), np.float64))
-    fa.append(LogPass.FrameChannel('GR', 'Gamma', 'gAPI', (1,), np.float32))
-    fa.append(LogPass.FrameChannel('CNT', 'Count', '', (1,), np.int32))
-    fa.append(LogPass.FrameChannel('WAVE', 'Waveform', 'OHM.M', (1, 2), np.float64))      # two values per frame, leading dimension 1
-    fa.append(LogPass.FrameChannel('SPEC', 'Spectrum counts', 'cps', (4,), np.int16 if v0 % 2 == 0 else np.uint8))
+    fa.append(LogPass.FrameChannel(names[0][0], 'Depth', names[0][1], (1,), np.float64))
+    fa.append(LogPass.FrameChannel(names[1][0], 'Gamma', names[1][1], (1,), np.float32))
+    fa.append(LogPass.FrameChannel(names[2][0], 'Count', names[2][1], (1,), np.int32))
+    fa.append(LogPass.FrameChannel(names[3][0], 'Waveform', names[3][1], (1, 2), np.float64))      # two values per frame, leading dimension 1
+    fa.append(LogPass.FrameChannel(names[4][0], 'Spectrum counts', names[4][1], (4,), np.int16 if v0 % 2 == 0 else np.uint8))
     if only is None:
         fa.init_arrays(nframes)
     else:
@@ -80,7 +84,8 @@ def write_read_q(nframes: int, m1: bool, m2: bool, m3: bool, bogus: bool, width:
 def _write_read(nframes, m1, m2, m3, bogus, width, dec, red, v0, v1, m4=False, incr=False):
     import numpy as np
     method = ['first', 'mean', 'median', 'min', 'max'][red]
-    fa = _frame_array(nframes, v0, v1)
+    NAMES = NAMESETS[(v0 // 2 + red) % 3]
+    fa = _frame_array(nframes, v0, v1, None, NAMES)
     subset = {n for (n, u), m in zip(NAMES[1:], (m1, m2, m3, m4)) if m}
     if bogus:
         subset.add('NOSUCH')
@@ -88,7 +93,7 @@ def _write_read(nframes, m1, m2, m3, bogus, width, dec, red, v0, v1, m4=False, i
     if subset and v0 % 2 == 1:
         # the frame array was prepared for the channel subset only (init_arrays_partial, as the RP66V1 converter does): the channels that
         # were not asked for hold no data at all
-        fa = _frame_array(nframes, v0, v1, subset)
+        fa = _frame_array(nframes, v0, v1, subset, NAMES)
     out = io.StringIO()
     if incr:
         # the documented incremental use: the three writers are called one after the other, each with its own copy of the requested set
